@@ -151,10 +151,15 @@ impl DerivedTS {
     /// ```
     fn generate_generic_types(&self, generics: &Generics) -> TokenStream {
         let crate_rename = &self.crate_rename;
-        let generics = generics
+        let generics: Vec<_> = generics
             .type_params()
             .filter(|ty| !self.concrete.contains_key(&ty.ident))
-            .map(|ty| ty.ident.clone());
+            .map(|ty| ty.ident.clone())
+            .collect();
+        // the TypeScript name of a parameter written as a raw identifier has no `r#`
+        let names = generics
+            .iter()
+            .map(|ident| syn::ext::IdentExt::unraw(ident).to_string());
         let name = quote![<Self as #crate_rename::TS>::name()];
         quote! {
             #(
@@ -168,10 +173,10 @@ impl DerivedTS {
                 impl #crate_rename::TS for #generics {
                     type WithoutGenerics = #generics;
                     type OptionInnerType = Self;
-                    fn name() -> String { stringify!(#generics).to_owned() }
+                    fn name() -> String { #names.to_owned() }
                     // `#[ts(inline)]` on a field whose type is the bare parameter: the parameter itself
-                    fn inline() -> String { stringify!(#generics).to_owned() }
-                    fn inline_flattened() -> String { stringify!(#generics).to_owned() }
+                    fn inline() -> String { <Self as #crate_rename::TS>::name() }
+                    fn inline_flattened() -> String { <Self as #crate_rename::TS>::name() }
                     fn decl() -> String { panic!("{} cannot be declared", #name) }
                     fn decl_concrete() -> String { panic!("{} cannot be declared", #name) }
                 }
